@@ -40,8 +40,9 @@ class Finding:
 class ParserAI:
     SUBJECT = PARSER
 
-    def __init__(self, F, kind_names, max_states=6000):
+    def __init__(self, F, kind_names, max_states=6000, eof_pop_panics=False):
         self.F = F
+        self.eof_pop_panics = eof_pop_panics   # popping the token window at end of file counts as a panic (C09 R9.10)
         self.names = kind_names
         self.kidx = {n: i for i, n in enumerate(kind_names)}
         self.memo = {}
@@ -392,10 +393,12 @@ class ParserAI:
         is_parser_method = path.startswith(PARSER + "::")
         if is_parser_method and name == "take":
             # take::<T>() = take_raw + assert(kind == T::KIND): that the assertion holds is rule R9.2's business
-            return [ret(None)] if k == EOF_KIND else [ret(None, consumed=True)]
+            if k == EOF_KIND:
+                return ["PANIC"] if self.eof_pop_panics else [ret(None)]
+            return [ret(None, consumed=True)]
         if is_parser_method and name in BASE_CONSUMERS:
             if k == EOF_KIND:
-                return [ret(None)]
+                return ["PANIC"] if self.eof_pop_panics else [ret(None)]
             return [ret(None, consumed=True)]
         if is_parser_method and name in ("peek", "next_terminal"):
             return [ret(("term",))]
